@@ -44,8 +44,59 @@ def cases(draw):
     return {"g": g, "cfg": cfg, "inputs": texts}
 
 
+CONTS = [("name=ID ';'", ["x", "y1"]), ("val=INT ';'", ["5", "42"]), ("s=STRING ';'", ['"a"', "'b'"]), ("'!' flag?='on' ';'", ["!", "! on"])]
+
+
+@st.composite
+def prefix_cases(draw):
+    """alternatives that start with the same rule at the same position - referenced suppressed (Kw-), assigned (k=Kw) or
+    plain - so that with memoization the second alternative finds the first one's cache entry for that rule"""
+    kw_kind = draw(st.sampled_from(["common", "match"]))
+    prefixes = ["Kw-", "k=Kw"] + (["Kw"] if kw_kind == "match" else [])
+    n = draw(st.integers(2, 3))
+    conts = draw(st.permutations(range(len(CONTS))))[:n]
+    alts = [[draw(st.sampled_from(prefixes)), c] for c in conts]
+    items = st.tuples(st.integers(0, n - 1), st.sampled_from(["def", "let"]), st.integers(0, 1)).map(list)
+    inputs = draw(st.lists(st.lists(items, min_size=1, max_size=5), min_size=2, max_size=4))
+    return {"kind": "prefix", "kw_kind": kw_kind, "alts": alts, "inputs": inputs, "break": draw(st.integers(0, 3))}
+
+
 def strategy(tier):
-    return cases()
+    return st.one_of(cases(), cases(), cases(), cases(), prefix_cases())
+
+
+def eval_prefix(case):
+    from textx import metamodel_from_str
+
+    out = Outcome()
+    kw = "Kw: kw=KwTok;\nKwTok: 'def' | 'let';" if case["kw_kind"] == "common" else "Kw: 'def' | 'let';"
+    gtext = "Model: items+=Item;\nItem: " + " | ".join(f"{p} {CONTS[c][0]}" for p, c in case["alts"]) + ";\n" + kw + "\n"
+    texts = []
+    for k, seq in enumerate(case["inputs"]):
+        toks = [f"{word} {CONTS[case['alts'][ai][1]][1][vi]}" + ("" if CONTS[case['alts'][ai][1]][1][vi].startswith("!") else "") + " ;"
+                for ai, word, vi in seq]
+        t = " ".join(toks)
+        if k == case["break"]:
+            t = t[:-1]  # the last ';' is missing: a rejected input between the others
+        texts.append(t)
+    out.sample = {"grammar": gtext, "inputs": texts}
+    out.cls("kind:shared_prefix", "kw:" + case["kw_kind"])
+    kinds = {p for p, _ in case["alts"]}
+    out.nontrivial = len(kinds) >= 2
+    plain = metamodel_from_str(gtext, memoization=False)
+    memo = metamodel_from_str(gtext, memoization=True)
+    for i, text in enumerate(texts + texts[:1]):
+        a, b = outcome(plain, text), outcome(memo, text)
+        ctx = f"grammar={gtext!r} input={text!r} (load #{i + 1} on the memoizing metamodel)"
+        if a[0] != b[0]:
+            out.add(f"acceptance/{a[0]}_without_{b[0]}_with_memoization", ctx + f": without {a}, with {b}")
+        elif a[0] == "ok":
+            df = D.diff(b[1], a[1])
+            if df:
+                out.add("model_differs/" + df[0], ctx + f" at {df[1]}: with memoization {df[2]} without")
+        elif a[1] != b[1]:
+            out.add("error_position", ctx + f": without {a[1]}, with {b[1]}")
+    return out
 
 
 def mixed_modes(g):
@@ -73,6 +124,8 @@ def outcome(mm, text):
 def evaluate(case):
     from textx.exceptions import TextXError
 
+    if case.get("kind") == "prefix":
+        return eval_prefix(case)
     out = Outcome()
     g, cfg = case["g"], case["cfg"]
     gtext = G.to_text(g)
